@@ -612,7 +612,7 @@ func (f *frame) makeIface(tp types.Type, v string) string {
 	s := B.sortOf(tp)
 	bx := B.declFun("box:"+s, []string{s}, "Int")
 	ub := B.declFun("unbox:"+s, []string{"Int"}, s)
-	B.rawDecl("boxax:"+s, fmt.Sprintf("(assert (forall ((x %s)) (! (= (%s (%s x)) x) :pattern ((%s x)))))", s, ub, bx, bx))
+	B.rawDecl("boxax:"+s, fmt.Sprintf("(assert (forall ((x %s)) (! (= (%s (%s x)) x) :pattern ((%s x)) :qid e1_instr_615)))", s, ub, bx, bx))
 	return fmt.Sprintf("(mk_iface %s (%s %s))", tag, bx, v)
 }
 
@@ -631,7 +631,7 @@ func (f *frame) unbox(tp types.Type, iface string) string {
 	s := B.sortOf(tp)
 	bx := B.declFun("box:"+s, []string{s}, "Int")
 	ub := B.declFun("unbox:"+s, []string{"Int"}, s)
-	B.rawDecl("boxax:"+s, fmt.Sprintf("(assert (forall ((x %s)) (! (= (%s (%s x)) x) :pattern ((%s x)))))", s, ub, bx, bx))
+	B.rawDecl("boxax:"+s, fmt.Sprintf("(assert (forall ((x %s)) (! (= (%s (%s x)) x) :pattern ((%s x)) :qid e2_instr_634)))", s, ub, bx, bx))
 	return fmt.Sprintf("(%s (i_val %s))", ub, iface)
 }
 
@@ -873,13 +873,16 @@ func (f *frame) next(x *ssa.Next, st *State, cur string) (string, error) {
 	k := B.declConst(f.vname(x)+".k", ks)
 	_ = tup
 	v := B.define(f.vname(x)+".v", vs, fmt.Sprintf("(select (select %s %s) %s)", t.get(st, mapVArr(mt), vsA), m, k))
-	fact := fmt.Sprintf("(and (=> %s (and (not (= %s 0)) (select %s %s) (not (select %s %s)))) (=> (not %s) (or (= %s 0) (forall ((?kk %s)) (! (=> (select %s ?kk) (select %s ?kk)) :pattern ((select %s ?kk)))))))",
+	fact := fmt.Sprintf("(and (=> %s (and (not (= %s 0)) (select %s %s) (not (select %s %s)))) (=> (not %s) (or (= %s 0) (forall ((?kk %s)) (! (=> (select %s ?kk) (select %s ?kk)) :pattern ((select %s ?kk)) :qid e3_instr_876)))))",
 		okC, m, pres, k, vis, k, okC, m, ks, pres, vis, pres)
 	// extensionality at exhaustion: if only present keys were visited, the visited set is the key set
 	presSet := fmt.Sprintf("(select %s %s)", t.get(st, mapPArr(mt), ps), m)
-	fact = and(fact, fmt.Sprintf("(=> (and (not %s) (not (= %s 0)) (forall ((?kk %s)) (! (=> (select %s ?kk) (select %s ?kk)) :pattern ((select %s ?kk))))) (= %s %s))", okC, m, ks, vis, presSet, vis, vis, presSet))
-	// a map with exactly one key: the key delivered is the only one
-	fact = and(fact, fmt.Sprintf("(=> (and %s (= (%s %s) 1)) (forall ((?kk %s)) (! (=> (select %s ?kk) (= ?kk %s)) :pattern ((select %s ?kk)))))", okC, B.cardFn(ks), presSet, ks, presSet, k, presSet))
+	fact = and(fact, fmt.Sprintf("(=> (and (not %s) (not (= %s 0)) (forall ((?kk %s)) (! (=> (select %s ?kk) (select %s ?kk)) :pattern ((select %s ?kk)) :qid e4_instr_880))) (= %s %s))", okC, m, ks, vis, presSet, vis, vis, presSet))
+	// a map with exactly one key: the key delivered is the only one (only where the function counts this kind of map:
+	// the cardinality axioms interact badly with array extensionality in proofs that do not need them)
+	if B.declared["cardax:"+ks] {
+		fact = and(fact, fmt.Sprintf("(=> (and %s (= (%s %s) 1)) (forall ((?kk %s)) (! (=> (select %s ?kk) (= ?kk %s)) :pattern ((select %s ?kk)) :qid e5_instr_882)))", okC, B.cardFn(ks), presSet, ks, presSet, k, presSet))
+	}
 	cur = and(cur, fact, implies(okC, t.typeFacts(st, v, mt.Elem())))
 	st.visited[r] = B.define("visited", "(Array "+ks+" Bool)", ite(okC, fmt.Sprintf("(store %s %s true)", vis, k), vis))
 	f.vals[x] = &Val{tuple: []*Val{{term: okC}, {term: k}, {term: v}}}
